@@ -39,7 +39,7 @@ def run(ctx):
     kinds = {}
     for r in recs:
         kinds[r["scn"]["kind"]] = kinds.get(r["scn"]["kind"], 0) + 1
-    if set(kinds) != {"wd", "name", "path", "map"}:
+    if set(kinds) != {"wd", "name", "path", "map", "defseq"}:
         raise Machinery("scenario kinds missing: %s" % kinds)
     cov = ctx.cov
     cov["evaluations"] = len(recs)
@@ -50,8 +50,10 @@ def run(ctx):
     cov["rule"] = ("scenarios enumerated by TLC: 2 workflow-directory modes x all pairs of 5 target kinds (target, template with/"
                    "without own directory, map with/without) each observed from 3 invoking directories; all 820 name class "
                    "sequences of length <=3 over 9 character classes (seeded representatives per class); 8 path value kinds x 3 "
-                   "positions; 4 map naming modes x 4 item shapes x 0..3 items; every scenario is distinct")
-    cov["samples"] = [next(r for r in recs if r["scn"]["kind"] == k) for k in ("wd", "name", "map")]
+                   "positions; 4 map naming modes x 4 item shapes x 0..3 items; all sequences of <=2 (3000 sampled of length 3) definition "
+                   "operations target/template/map(naming function, 0..3 items) over a pool of 3 names, judged by the registry model "
+                   "(accepted iff names pairwise distinct and unregistered); every scenario is distinct")
+    cov["samples"] = [next(r for r in recs if r["scn"]["kind"] == k) for k in ("wd", "name", "map", "defseq")]
     ctx.assumptions += ["names and paths are decided per character/value class with a few concrete representatives each (DESIGN section 8)"]
 
 
